@@ -66,8 +66,42 @@ def rqSchedule (kind : String) (noise : Nat) : Option (List Action) :=
   | "late" => some (regs ++ [.timeout 0, .unregister 0, .readerLookup ⟨0, 7⟩] ++ noiseEnd ++ fresh)
   | _ => none
 
+/-- Schedules of the NATS-transport scenarios (harness/rt/natsreq.go): caller 0 = A, caller 1 = B
+(only in `reuse`), the last caller = the fresh request. -/
+def nrqSchedule (kind : String) (missed : Bool) : Option (List Action × Nat) :=
+  let own (i t : Nat) := [Action.readerLookup ⟨i, t⟩, .readerSend]
+  match kind with
+  | "early" => some ([.register 0] ++ own 0 7 ++ [.recv 0, .unregister 0, .register 1] ++ own 1 7 ++ [.recv 1, .unregister 1], 1)
+  | "dup3" => some ([.register 0] ++ own 0 7 ++ own 0 8 ++ own 0 9 ++ [.recv 0, .unregister 0, .register 1] ++ own 1 7 ++ [.recv 1, .unregister 1], 1)
+  | "silent" => some ([.register 0, .timeout 0, .unregister 0, .register 1] ++ own 1 7 ++ [.recv 1, .unregister 1], 1)
+  | "foreign" => some ([.register 0, .readerLookup ⟨1007, 1⟩, .timeout 0, .unregister 0, .register 1] ++ own 1 7 ++ [.recv 1, .unregister 1], 1)
+  | "reuse" =>
+    -- the duplicate for A is looked up while A is still registered, held, and sent after A has
+    -- unregistered and B has registered (or, window missed: looked up after A unregistered: dropped)
+    let mid := if missed then [Action.recv 0, .unregister 0, .readerLookup ⟨0, 8⟩, .register 1]
+               else [Action.readerLookup ⟨0, 8⟩, .recv 0, .unregister 0, .register 1, .readerSend]
+    some ([.register 0] ++ own 0 7 ++ mid ++ [.timeout 1, .unregister 1, .register 2] ++ own 2 7 ++ [.recv 2, .unregister 2], 2)
+  | _ => none
+
+def showNrqOutcome (c : Caller) : String :=
+  match c.pc with
+  | .done (.ok f) => s!"ok:{f.tag}"
+  | .done .timedOut => "timedOut"
+  | pc => showPc pc
+
 def stepRegistry (op : String) (args : List String) : Option String :=
   match op, args with
+  | "nrq", [kind, _timeout, missed] => do
+    let (as, freshIdx) ← nrqSchedule kind (missed == "1")
+    let s ← run (init FV.Params.resultChanCapNats FV.Params.dispatchSendBlocking (List.range (freshIdx + 1))) as
+    let a ← s.callers[0]?
+    let f ← s.callers[freshIdx]?
+    let b := if kind == "reuse" then
+        match s.callers[1]? with
+        | some c => showNrqOutcome c ++ (if missed == "1" then ":window-missed" else "")
+        | none => "?"
+      else "-"
+    pure s!"A={showNrqOutcome a} B={b} fresh={showNrqOutcome f} reg={s.registry.length}"
   | "rq", [kind, _timeout, noise] => do
     let noise ← noise.toNat?
     let as ← rqSchedule kind noise
